@@ -1110,6 +1110,7 @@ class History:
         if how == "Field_scalar_nonscalar" and shape == ():
             how = "Field_wrongshape"
         wrong = self._wrongdom(shape)
+        allowed = REJECT[how] if _plain(_raw(obj)) else Exception      # ndarray subclass: see ASSUMPTIONS
         try:
             if how == "Field_wrongshape":
                 r = ift.Field(wrong, obj)
@@ -1138,7 +1139,7 @@ class History:
             else:
                 r = ift.DiagonalOperator(obj)
             exc = None
-        except REJECT[how] as e:
+        except allowed as e:
             exc = e
         what = f"rejected call {how} with {label} ({type(_raw(obj)).__name__}, shape {shape})"
         if exc is None:
@@ -1173,6 +1174,9 @@ class History:
         shape = () if mf else tuple(f.domain.shape)
         wrong = self._wrongdom(shape)
         pw = ift.full(wrong, 1.)
+        # a field around an ndarray subclass may fail earlier and differently (ASSUMPTIONS), e.g. makeOp of a
+        # scalar-domain field whose value is a masked 0-d array
+        allowed = Exception if self._exotic(f) else FFAIL[how]
         try:
             if how == "cast_wrongshape":
                 f.cast_domain(wrong)
@@ -1203,7 +1207,7 @@ class History:
             else:
                 f["no_such_key"]
             self.classes.add("failing_op_was_accepted:" + how)
-        except FFAIL[how] as e:
+        except allowed as e:
             self.classes.add("exc_ffail:" + type(e).__name__)
         self.classes.add("ffail:" + how + ("(multi)" if mf else ""))
         self.check("by_failing_field_operation", f"failing operation {how} on field #{j} ({ent['ctor']})")
